@@ -199,6 +199,8 @@ let parse_op (s : string) : parsed =
       { name; key = None; mop = None; now; run_single = None; run_bulk = Some (bl, br) }
   | t -> failwith ("unknown op " ^ t)
 
+let c_bounded_of (c : M.cfg option) = match c with Some c -> c.M.bounded | None -> false
+
 let bulk_names = [ "BGET"; "BREF"; "BRUN"; "INVALL" ]
 
 (* properties a deviation from the abstract map is reported under *)
@@ -222,6 +224,52 @@ let run (path : string) : unit =
   let sp = ref M.cstate0 in        (* abstract map *)
   let spawns : M.spawn Queue.t = Queue.create () in
   let last_name = ref "" and last_dead = ref false in
+  (* --- closed-loop policy replay (maint mode) *)
+  let maint = ref false in
+  let cur_max : Z.t option ref = ref None in
+  let ms = ref (M.mstate0 false false false) in
+  let rnd = ref M.Z0 in
+  let exp_of : (string, M.z) Hashtbl.t = Hashtbl.create 64 in      (* node id (= value) -> current ExpiresAt *)
+  let key_of : (string, M.z) Hashtbl.t = Hashtbl.create 64 in
+  let hashes : (string, M.z array) Hashtbl.t = Hashtbl.create 8 in (* sketch table length -> hash of each key *)
+  let expected : (int * string * int) Queue.t = Queue.create () in (* predicted automatic removals *)
+  let case_no = ref 0 in
+  (* pre-pass: the hash of every key under each sketch seed (one seed per table length) of each case *)
+  let all_hashes : (int * string, M.z array) Hashtbl.t = Hashtbl.create 64 in
+  (let cn = ref 0 in
+   iter_lines path (fun _ toks ->
+       match toks with
+       | "C" :: _ -> incr cn
+       | "A" :: rest ->
+           let rec find_c = function
+             | "C" :: _ :: _ :: _ :: _ :: _ :: _ :: _ :: sklen :: "|" :: "H" :: n :: tl -> Some (sklen, int_of_string n, tl)
+             | _ :: tl -> find_c tl
+             | [] -> None in
+           (match find_c rest with
+            | Some (sklen, n, tl) ->
+                if not (Hashtbl.mem all_hashes (!cn, sklen)) then begin
+                  let arr = Array.make n M.Z0 in
+                  List.iteri (fun i t -> if i < n then arr.(i) <- mz_of_string t) tl;
+                  Hashtbl.replace all_hashes (!cn, sklen) arr
+                end
+            | None -> ())
+       | _ -> ()));
+  let hashf (len : M.z) (k : M.z) : M.z =
+    match Hashtbl.find_opt all_hashes (!case_no, s_of len) with
+    | Some arr -> let i = int_of_mz k in if i >= 0 && i < Array.length arr then arr.(i) else M.Z0
+    | None -> M.Z0 in
+  let cur (id : M.z) : M.z = match Hashtbl.find_opt exp_of (s_of id) with Some e -> e | None -> mz_of_string "9223372036854775807" in
+  let ignore_hashes = hashes in ignore ignore_hashes;
+  let refresh_exps () =
+    List.iter (fun (k, n) -> Hashtbl.replace exp_of (s_of n.M.nval) n.M.nexp; Hashtbl.replace key_of (s_of n.M.nval) k) (M.cmap !st) in
+  let flush_expected ln =
+    if not (Queue.is_empty expected) then begin
+      let (k, v, cs) = Queue.peek expected in
+      mismatch "maint" ln "the model's maintenance removes (key %d, value %s, cause %d) but the implementation did not (%d pending)" k v cs (Queue.length expected);
+      List.iter (fun p -> propfail p "missing-automatic-removal" ln "maintenance did not remove (key %d, value %s, cause %d) although the policy model must" k v cs)
+        (if cs = 4 then [ "C13" ] else [ "C04" ]);
+      Queue.clear expected
+    end in
   let getcfg () = match !cfg with Some c -> c | None -> failwith "no cfg" in
   let pf ln name dead aspect fmt =
     Printf.ksprintf (fun s ->
@@ -234,7 +282,40 @@ let run (path : string) : unit =
           if not (Queue.is_empty spawns) then
             mismatch "seq" ln "a refresh task the model expects was never executed (%d pending)" (Queue.length spawns);
           Queue.clear spawns;
+          flush_expected ln;
+          incr case_no; maint := false; cur_max := None; Hashtbl.clear exp_of; Hashtbl.clear key_of;
           cfg := Some (parse_cfg rest); st := M.cstate0; sp := M.cstate0; count "cases"
+      | "MODE" :: "maint" :: r :: ic :: _ ->
+          let c = getcfg () in
+          maint := true;
+          ms := M.mstate0 c.M.bounded c.M.with_exp c.M.weighted;
+          (match String.split_on_char '=' r with [ _; v ] -> rnd := z v | _ -> ());
+          (match String.split_on_char '=' ic with
+           | [ _; v ] when v <> "-1" -> ms := M.m_init_sketch !ms (z v)
+           | _ -> ())
+      | [ "X"; mx; wm; pm ] ->
+          cur_max := Some (Z.of_string mx);
+          if !maint then ms := M.m_set_maximum !ms (z mx) (z wm) (z pm)
+      | [ "M"; now ] ->
+          if !maint then begin
+            refresh_exps ();
+            let (((m', expired), ev_tasks), evicted) = M.m_maintenance hashf cur !rnd (z now) !ms in
+            ms := m';
+            count "maintenance_replayed";
+            let expect cs ids =
+              List.iter (fun id ->
+                  match Hashtbl.find_opt key_of (s_of id) with
+                  | Some k ->
+                      (* reported only if that very node is still the key's current node; successive
+                         removals in one run concern distinct keys' current nodes *)
+                      (match M.lookup k (M.cmap !st) with
+                       | Some n when s_of n.M.nval = s_of id ->
+                           if not (Queue.fold (fun acc (_, v, _) -> acc || v = s_of id) false expected) then
+                             Queue.push (int_of_mz k, s_of id, cs) expected
+                       | _ -> ())
+                  | None -> ()) ids in
+            expect 3 ev_tasks; expect 4 expired; expect 3 evicted
+          end
       | "O" :: _ ->
           let line = String.concat " " toks in
           let parts = split_semis line in
@@ -242,6 +323,38 @@ let run (path : string) : unit =
           let c = getcfg () in
           count ("op_" ^ p.name);
           let is_auto = p.name = "AUTO" in
+          (* C07 / C04: an Overflow removal needs total weight > maximum (or an oversized entry) and a positive weight *)
+          (if is_auto then
+             match p.key, p.mop, !cur_max with
+             | Some k, Some (M.OAuto (_, v, M.COverflow, _)), Some mx ->
+                 let total = List.fold_left (fun acc (_, n) -> Z.add acc (z_of_mz n.M.nweight)) Z.zero (M.cmap !st) in
+                 (match M.lookup k (M.cmap !st) with
+                  | Some n when s_of n.M.nval = s_of v ->
+                      let w = z_of_mz n.M.nweight in
+                      count "overflow_removals_checked";
+                      if Z.equal w Z.zero then
+                        List.iter (fun pr -> propfail pr "zero-weight-evicted" ln "entry (key %s, value %s) of weight 0 was evicted for size" (s_of k) (s_of v)) [ "C04"; "C07" ];
+                      if not (Z.gt total mx || Z.gt w mx) then
+                        propfail "C07" "overflow-unjustified" ln "Overflow removal of (key %s, value %s) while total weight %s <= maximum %s" (s_of k) (s_of v) (Z.to_string total) (Z.to_string mx)
+                  | _ -> ())
+             | _ -> ());
+          if !maint then begin
+            if is_auto then begin
+              (match p.key, List.nth parts 0 with
+               | Some k, l ->
+                   let toks = tokens l in
+                   let v = List.nth toks 3 and cs = int_of_string (List.nth toks 4) in
+                   if Queue.is_empty expected then begin
+                     mismatch "maint" ln "automatic removal %s not predicted by the policy model" l;
+                     List.iter (fun pr -> propfail pr "unpredicted-automatic-removal" ln "automatic removal %s: the policy model removes nothing here" l) [ "C07" ]
+                   end else begin
+                     let (ek, ev, ecs) = Queue.pop expected in
+                     if (ek, ev, ecs) <> (int_of_mz k, v, cs) then
+                       mismatch "maint" ln "automatic removal: model (key %d, value %s, cause %d) impl %s" ek ev ecs l
+                   end
+               | _ -> ())
+            end else flush_expected ln
+          end;
           (* the model op *)
           let mop =
             match p.mop with
@@ -267,7 +380,39 @@ let run (path : string) : unit =
                last_name := p.name; last_dead := dead;
                let (st', r) = M.step c !st o in
                let (sp', rs) = M.spec_step c !sp o in
+               let st_before = !st in
                st := st'; sp := sp';
+               if !maint && not is_auto then begin
+                 (match p.key with
+                  | Some k ->
+                      let oldn = M.lookup k (M.cmap st_before) and newn = M.lookup k (M.cmap st') in
+                      let live n = not (M.has_expired c n p.now) in
+                      (* afterRead: which operations hand the node they found to the read buffer *)
+                      let reads =
+                        match p.name, oldn with
+                        | ("GIP" | "GE" | "GET" | "CIA" | "CIP" | "SIA"), Some n when live n -> true
+                        | "SEA", Some n when live n && c.M.with_exp ->
+                            (match p.mop with Some (M.OSetExpiresAfter (_, d, _)) -> Z.sign (z_of_mz d) > 0 | _ -> false)
+                        | _ -> false in
+                      if reads then (match oldn with Some n -> ms := fst (M.m_read !ms n.M.nval) | None -> ());
+                      (match oldn, newn with
+                       | Some o, Some n when s_of o.M.nval <> s_of n.M.nval ->
+                           ms := M.m_new !ms n.M.nval k n.M.nweight; ms := M.m_retire !ms o.M.nval;
+                           ms := M.m_push !ms (M.TUpd (n.M.nval, o.M.nval))
+                       | None, Some n ->
+                           ms := M.m_new !ms n.M.nval k n.M.nweight; ms := M.m_push !ms (M.TAdd n.M.nval)
+                       | Some o, None ->
+                           ms := M.m_retire !ms o.M.nval; ms := M.m_push !ms (M.TDel o.M.nval)
+                       | _ -> ())
+                  | None -> ());
+                 refresh_exps ()
+               end;
+               if !maint && is_auto then begin
+                 (* deleteNodeFromMap retires the node it removes *)
+                 (match p.key with
+                  | Some k -> (match M.lookup k (M.cmap st_before) with Some o -> ms := M.m_retire !ms o.M.nval | None -> ())
+                  | None -> ())
+               end;
                List.iter (fun s -> Queue.push s spawns) r.M.r_spawn;
                if is_auto then begin
                  (match r.M.r_ret with
@@ -375,4 +520,60 @@ let run (path : string) : unit =
             let fix (s : M.cstate) = { s with M.cst = { M.hits = z h; misses = z mi; lsucc = z ls; lfail = z lf; evictions = z ev; evweight = z ew } } in
             st := fix !st; sp := fix !sp
           end
-      | _ -> mismatch "seq" ln "unparsed trace line")
+      | "A" :: rest ->
+          if !maint then begin
+            count "audits_compared";
+            let cu = { toks = rest } in
+            let _ds = next cu in
+            let wb = nexti cu in let rb = nexti cu in
+            let m = !ms in
+            if List.length (M.wbuf m) <> wb then mismatch "maint" ln "write buffer size model=%d impl=%d" (List.length (M.wbuf m)) wb;
+            if List.length (M.rbuf m) <> rb then mismatch "maint" ln "read buffer length model=%d impl=%d" (List.length (M.rbuf m)) rb;
+            let ids l = String.concat " " (List.map s_of l) in
+            let read_list () = let n = nexti cu in String.concat " " (List.init n (fun _ -> next cu)) in
+            let p = M.pol m in
+            let rec sections () =
+              match cu.toks with
+              | [] -> ()
+              | "|" :: _ -> ignore (next cu); sections ()
+              | "W" :: _ -> ignore (next cu); let l = read_list () in
+                  if l <> ids (M.qwin p) then mismatch "maint" ln "window deque model=[%s] impl=[%s]" (ids (M.qwin p)) l; sections ()
+              | "P" :: _ -> ignore (next cu); let l = read_list () in
+                  if l <> ids (M.qprob p) then mismatch "maint" ln "probation deque model=[%s] impl=[%s]" (ids (M.qprob p)) l; sections ()
+              | "T" :: _ -> ignore (next cu); let l = read_list () in
+                  if l <> ids (M.qprot p) then mismatch "maint" ln "protected deque model=[%s] impl=[%s]" (ids (M.qprot p)) l; sections ()
+              | "C" :: _ -> ignore (next cu);
+                  let impl = String.concat " " (List.init 8 (fun _ -> next cu)) in
+                  let sk = M.sk p in
+                  let model = Printf.sprintf "%s %s %s %s %s %s %s %d" (s_of (M.maxi p)) (s_of (M.wsize p)) (s_of (M.wmax p)) (s_of (M.wwsize p))
+                                (s_of (M.pmax p)) (s_of (M.pwsize p)) (b01 (M.inited sk)) (List.length (M.tbl sk)) in
+                  if impl <> model then mismatch "maint" ln "policy counters (max wsize wmax wwsize pmax pwsize sketchInit sketchLen) model=[%s] impl=[%s]" model impl;
+                  sections ()
+              | "H" :: _ -> ignore (next cu); let n = nexti cu in for _ = 1 to n do ignore (next cu) done; sections ()
+              | "WH" :: _ -> ignore (next cu);
+                  let t = next cu in
+                  let w = M.whl m in
+                  if s_of (M.wtime w) <> t then mismatch "maint" ln "wheel time model=%s impl=%s" (s_of (M.wtime w)) t;
+                  let nb = nexti cu in
+                  let impl = List.init nb (fun _ -> let i = nexti cu in let j = nexti cu in let n = nexti cu in
+                                            (i, j, String.concat " " (List.init n (fun _ -> next cu)))) in
+                  let model = List.concat (List.mapi (fun i lvl -> List.concat (List.mapi (fun j b ->
+                                  if b = [] then [] else [ (i, j, String.concat " " (List.map (fun t -> s_of t.M.tid) b)) ]) lvl)) (M.wlevels w)) in
+                  if impl <> model then
+                    mismatch "maint" ln "timer wheel buckets model=[%s] impl=[%s]"
+                      (String.concat "; " (List.map (fun (i, j, l) -> Printf.sprintf "%d/%d: %s" i j l) model))
+                      (String.concat "; " (List.map (fun (i, j, l) -> Printf.sprintf "%d/%d: %s" i j l) impl));
+                  sections ()
+              | "N" :: _ -> ignore (next cu);
+                  let n = nexti cu in
+                  for _ = 1 to n do
+                    let v = next cu in let stt = next cu in let q = next cu in
+                    let nd = M.node_of p (z v) in
+                    if s_of nd.M.pstate <> stt then mismatch "maint" ln "node %s state model=%s impl=%s" v (s_of nd.M.pstate) stt;
+                    if c_bounded_of !cfg && s_of nd.M.pqueue <> q then mismatch "maint" ln "node %s queue tag model=%s impl=%s" v (s_of nd.M.pqueue) q
+                  done; sections ()
+              | t :: _ -> ignore (next cu); ignore t; sections () in
+            sections ()
+          end
+      | _ -> mismatch "seq" ln "unparsed trace line");
+  flush_expected 0
